@@ -132,7 +132,9 @@ def design(ctx, psets):
     ctx.cov["reachable_header_states"] = g.distinct
     # (a) the envelope: SafeStep chains satisfy the chain-level statement
     cfg = CFG % dict(base, mode="safe", invs="INVARIANT ChainStatement", view="ViewS")
-    a = ctx.tlc_must("VersionUpgrade", cfg, name="M_safe_envelope", files=files, timeout=3000)
+    # (a property-layer self-consistency check, independent of the code: a subset of the sets in the quick tier)
+    efiles = files if not quick else dict(files, **{"params.json": json.dumps(FIXED_SETS[:2] + MIXED_FIXED[:1])})
+    a = ctx.tlc_must("VersionUpgrade", cfg, name="M_safe_envelope", files=efiles, timeout=3000)
     if a.violated:
         raise vlib.Undecided("the property layer is inconsistent: a SafeStep chain violates the chain-level statement (%s)" % a.dir)
     # (d) the proposed repair removes every deviation (no known list)
@@ -287,7 +289,7 @@ def chain_generate(ctx):
                          files={"known_c12.json": json.dumps([{"clause": "-none-", "disc": ["-"]}])})
         ctx.cov["chain_repaired_design_holds"] = bool(f.ok)
     # G1: one witness schedule per distinct reachable transition (the driver queries after every action)
-    cfg = VC_CFG % dict(acts=6 if quick else 8, fix=FIX_PARENT, auto="TRUE", gen="transitions",
+    cfg = VC_CFG % dict(acts=5 if quick else 8, fix=FIX_PARENT, auto="TRUE", gen="transitions",
                         invs="INVARIANT GenTransitions", view="ViewG")
     g1 = ctx.tlc_must("VersionChain", cfg, name="G1_chain_transitions", files=files, timeout=1500, workers=1)
     tr = [sched(v["h"]) for v in g1.printed if isinstance(v, dict) and v.get("kind") == "B"]
@@ -298,8 +300,26 @@ def chain_generate(ctx):
     sim = [json.loads(x) for x in sorted({json.dumps(sched(v["h"])) for v in g2.printed if isinstance(v, dict) and v.get("kind") == "B"})]
     random.Random(ctx.seed).shuffle(sim)
     sim = sim[:(100 if quick else 1500)]
-    ctx.note("chain level: %d witnesses/cex, %d transition schedules, %d simulated schedules" % (len(behs), len(tr), len(sim)))
-    return behs + tr + sim, m.violated
+    # probes: adversarial single headers chosen by TLC on parents of every kind of version state (what the pure verifier model
+    # rejects, and what it accepts); each becomes a real block offered to InsertChain
+    cfg = VC_CFG % dict(acts=0, fix=FIX_PARENT, auto="TRUE", gen="probes", invs="INVARIANT GenProbes", view="View")
+    gp = ctx.tlc_must("VersionChain", cfg, name="G_chain_probes", files=files, timeout=1500, workers=1)
+    probes = []
+    for v in gp.printed:
+        if isinstance(v, dict) and v.get("kind") == "PROBES":
+            for pr in sorted(v["h"], key=lambda x: x["p"]):
+                cands = sorted(pr["rej"]) + sorted(pr["acc"])
+                if quick:
+                    # every accepted header, every rejected header that differs from the parent's fields in at most one field
+                    # (the copy included), and a seeded sample of the other rejected ones
+                    near = [c for c in sorted(pr["rej"]) if sum(1 for a, b in zip(c, pr["pv"]) if a != b) <= 1]
+                    far = [c for c in sorted(pr["rej"]) if c not in near]
+                    random.Random(ctx.seed).shuffle(far)
+                    cands = near + far[:220] + sorted(pr["acc"])
+                probes.append({"probe": pr["p"], "cands": cands, "nrej": len(pr["rej"]), "nacc": len(pr["acc"])})
+    ctx.note("chain level: %d witnesses/cex, %d transition schedules, %d simulated schedules, %d probe parents (%d headers)" % (
+        len(behs), len(tr), len(sim), len(probes), sum(len(x["cands"]) for x in probes)))
+    return behs + tr + sim + probes, m.violated
 
 
 def chain_judge(ctx, behs, conformance=True):
@@ -314,8 +334,11 @@ def chain_judge(ctx, behs, conformance=True):
         for line in fh:
             if '"ev":"query"' in line:
                 n += 8
+            elif '"ev":"probe"' in line:
+                n += 2 * line.count("],[")
     ctx.cov["evaluations"] += n
-    ctx.cov["distinct_nontrivial"] += len({json.dumps(b, sort_keys=True) for b in behs if sum(1 for a in b if a["a"] != "query") >= 2})
+    ctx.cov["distinct_nontrivial"] += len({json.dumps(b, sort_keys=True) for b in behs
+                                           if isinstance(b, dict) or sum(1 for a in b if a["a"] != "query") >= 2})
     for a in info["aborts"]:
         ctx.note("chain level: driver aborted in schedule %s: %s" % (a["b"], a["msg"]))
     result, _ = vlib.monitor(ctx, "VersionChain_Mon", "VersionChain_Mon.cfg", trace, behaviours=bpath, name="VersionChain_Mon",
@@ -323,8 +346,11 @@ def chain_judge(ctx, behs, conformance=True):
     if conformance:
         # the code may follow the design as coded (first block checked against the canonical block) or the repaired one
         verdicts = []
-        for fix, label in (("FALSE", "as coded (first block of a segment checked against the canonical block)"),
-                           ("TRUE", "repaired (first block checked against its real parent)")):
+        designs = [("FALSE", "as coded before fix 8a32233 (first block of a segment checked against the canonical block)"),
+                   ("TRUE", "repaired (first block checked against its real parent)")]
+        if FIX_PARENT == "TRUE":
+            designs.reverse()
+        for fix, label in designs:
             cfgt = open(os.path.join(vlib.SPEC, "VersionChain_Trace.cfg")).read().replace("FixParent = FALSE", "FixParent = " + fix)
             conf = ctx.tlc("VersionChain_Trace", cfgt, name="Conf_chain_" + fix.lower(), workers=1, timeout=1500, count=False,
                            xss="256m", files={"trace.ndjson": trace, "known_c12.json": json.dumps(known_for_model(ctx))})
@@ -426,8 +452,8 @@ def run(ctx):
 
 def replay(ctx, path):
     data = json.load(open(path))
-    chain = [b for b in data["behaviours"] if isinstance(b, list)]
-    pairs = [b for b in data["behaviours"] if isinstance(b, dict)]
+    chain = [b for b in data["behaviours"] if isinstance(b, list) or "probe" in b]
+    pairs = [b for b in data["behaviours"] if isinstance(b, dict) and "probe" not in b]
     if chain:
         chain_judge(ctx, chain, conformance=False)
     if pairs:
